@@ -1306,9 +1306,26 @@ private:
     return true;
   }
 
+  /// \brief Cut a torn tail off the log. Replay stops at the first entry that is
+  /// incomplete or cannot be framed (a crash in the middle of an append leaves
+  /// such a tail). openLogFile() appends behind whatever the file holds, so
+  /// without this the torn entry's length field would swallow the entries
+  /// written after the restart and they would be lost on the next load.
+  void cutTornLogTail(std::ifstream &log, std::streamoff goodEnd)
+  {
+    log.close();
+    std::error_code ec;
+    std::filesystem::resize_file(_logPath, static_cast<std::uintmax_t>(goodEnd), ec);
+    if (ec)
+    {
+      throw KVStoreException("Failed to cut torn tail off log file: " + ec.message());
+    }
+  }
+
   void load()
   {
     const auto now = std::chrono::system_clock::now();
+    std::streamoff logGoodEnd = 0; // offset just past the last completely framed log entry
 
     // Load snapshot with robust error handling
     std::ifstream snapshot(_path, std::ios::binary);
@@ -1416,14 +1433,17 @@ private:
       if (!log.read(reinterpret_cast<char *>(&totalLen), sizeof(totalLen)) || totalLen < 10 ||
           totalLen > MAX_LOG_ENTRY_LENGTH)
       {
+        cutTornLogTail(log, logGoodEnd);
         break; // Invalid or corrupted entry
       }
 
       std::vector<std::uint8_t> buffer(totalLen);
       if (!log.read(reinterpret_cast<char *>(buffer.data()), totalLen))
       {
+        cutTornLogTail(log, logGoodEnd);
         break; // Incomplete entry
       }
+      logGoodEnd += static_cast<std::streamoff>(sizeof(totalLen)) + static_cast<std::streamoff>(totalLen);
 
       if (!validateLogEntry(buffer, totalLen))
       {
